@@ -468,10 +468,10 @@ def r4(ctx):
     # ---- rotation branch
     then = C.kids(body[i_rot])[1]
     rs = C.kids(then)
-    i_q = [i for i, x in enumerate(rs) if x["kind"] == "IfStmt"]
-    if len(i_q) != 1:
+    i_ifs = [i for i, x in enumerate(rs) if x["kind"] == "IfStmt"]
+    if not i_ifs:
         raise AnalysisError("msdFromMandG: the |q|^2 test was not found in the rotation block")
-    i_q = i_q[0]
+    i_q = i_ifs[-1]         # the last test decides between the identity and R(q); tests before it may replace q (other rows of the adjugate)
     s2 = s.fork()
     ksym = {}
     for a in range(4):
@@ -481,28 +481,90 @@ def r4(ctx):
     lam_names = [k_ for k_, v_ in s.env.items() if isinstance(k_, str) and isinstance(v_, Rat) and v_ == _sym("lam")]
     for nm_ in lam_names:
         s2.env[nm_] = _sym("lam")
-    try:
-        r = ex.run(rs[:i_q], s2)[0]
-    except Unsupported as e:
-        raise AnalysisError("msdFromMandG rotation block: %s" % e)
+    # the statements that form K' = K - lambda I: the shortest prefix after which the key-matrix locals hold it
+    i_k, r = None, None
+    for i_ in range(1, i_q + 1):
+        try:
+            cand = ex.run(rs[:i_], s2.fork())
+        except Unsupported as e:
+            raise AnalysisError("msdFromMandG rotation block: %s" % e)
+        if len(cand) == 1 and all(cand[0].env.get(kn[a][b]) == ksym[(a, b)] - (_sym("lam") if a == b else 0) for a in range(4) for b in range(a, 4)):
+            i_k, r = i_, cand[0]
+            break
+    for a in range(4):
+        for b in range(a, 4):
+            dec(i_k is not None, "K' = K - lambda I entry (%d,%d)" % (a, b), "the key-matrix locals never hold K - lambda I in the rotation block")
+    if i_k is None:
+        return None
+    # from here on K' is a matrix of fresh symbols (keeps the cofactor polynomials small)
     Kp = [[None] * 4 for _ in range(4)]
     for a in range(4):
         for b in range(a, 4):
-            Kp[a][b] = Kp[b][a] = r.env[kn[a][b]]
-            want = ksym[(a, b)] - (_sym("lam") if a == b else 0)
-            dec(Kp[a][b] == want, "K' = K - lambda I entry (%d,%d)" % (a, b), "entry (%d,%d) of K - lambda I is %r" % (a, b, Kp[a][b]))
-    qn = []
+            Kp[a][b] = Kp[b][a] = _sym("p%d%d" % (a, b))
+            r.env[kn[a][b]] = Kp[a][b]
+    rows = [[cofactor(Kp, a, j) for j in range(4)] for a in range(4)]
+    rowsq = [sum((c_ * c_ for c_ in rows[a]), Rat(Poly.const(0))) for a in range(4)]
+    try:
+        pre = ex.run(rs[i_k:i_q], r)
+    except Unsupported as e:
+        raise AnalysisError("msdFromMandG rotation block: %s" % e)
+    from ..symval import elementary_facts as _facts
+
+    def rows_tested(x):
+        """{row: True (|row|^2 below the threshold on this path) / False}, and the thresholds used"""
+        out, thr = {}, []
+        for (cv_, pol), (txt, _p) in zip(x.cexprs, x.cvals):
+            for rel, d in _facts(ex, cv_ if cv_ is not None else txt, pol):
+                if rel not in ("<", "<="):
+                    continue
+                for a in range(4):
+                    # small:  |row a|^2 - t < 0 ;  not small:  t - |row a|^2 <= 0
+                    for sign, val in ((1, True), (-1, False)):
+                        diff = d - rowsq[a] if sign == 1 else d + rowsq[a]
+                        c_ = diff.const_value() if isinstance(diff, Rat) else None
+                        if c_ is not None and ((val and rel == "<") or (not val and rel == "<=")):
+                            out[a] = val
+                            thr.append(abs(c_))
+        return out, thr
+    qn, finals = None, []
+    for x in pre:
+        names = []
+        for j in range(4):
+            names.append(next((k_ for k_, v_ in x.env.items() if isinstance(k_, str) and k_ not in names and isinstance(v_, Rat) and any(v_ == rows[a][j] for a in range(4))), None))
+        held = next((a for a in range(4) if all(nm_ is not None and x.env[nm_] == rows[a][j] for j, nm_ in enumerate(names))), None)
+        finals.append((x, names, held, rows_tested(x)[0]))
+    x0 = next((f for f in finals if f[2] == 0 and not f[3].get(0, False)), None)
     for j in range(4):
-        nm_ = find(r.env, cofactor(Kp, 0, j), exclude=set(qn))
-        qn.append(nm_)
-        dec(nm_ is not None, "q%d = cofactor (0,%d) of K - lambda I" % (j, j),
+        dec(x0 is not None and x0[1][j] is not None, "q%d = cofactor (0,%d) of K - lambda I" % (j, j),
             "no local holds the cofactor (0,%d) of K - lambda I: the vector used as quaternion is not an eigenvector of K for lambda" % j)
-    if any(x is None for x in qn):
+    if x0 is None:
         return None
+    qn = x0[1]
+    bad_paths = [f for f in finals if f[2] is None or f[1] != qn]
+    dec(not bad_paths, "on every path to the |q|^2 test q is a row of adj(K - lambda I) (each row is a multiple of the eigenvector), %d path(s)" % len(finals),
+        "on a path to the |q|^2 test the quaternion locals hold something that is no row of adj(K - lambda I): %s" % [[repr(f[0].env.get(n_))[:50] for n_ in qn] for f in bad_paths[:1]])
+    # the identity is an answer only when the adjugate vanishes altogether: a path on which q (row r) can be below the threshold must have found the
+    # other three rows below it as well - row 0 alone is zero for every half turn (scalar part of the eigenvector 0), where the identity is not optimal
+    gaps = []
+    for (x, names, held, tested) in finals:
+        if held is None or tested.get(held) is False:
+            continue
+        small_rows = {a for a, v_ in tested.items() if v_} | {held}
+        if small_rows != {0, 1, 2, 3}:
+            gaps.append((held, sorted(small_rows)))
+    dec(not gaps, "the identity is the fallback only when all four rows of adj(K - lambda I) are below the threshold",
+        "the identity rotation is stored when row(s) %s of adj(K - lambda I) are below the threshold and the others were never looked at: row 0 is the eigenvector times its scalar part, "
+        "which is zero whenever the optimal rotation is a half turn (e.g. a frame turned by 180 degrees about a coordinate axis) - superpose then leaves the frame where it is "
+        "although rmsd() reports the fitted value" % (gaps[0][1] if gaps else ""))
+    r = x0[0]
     qs_ = [r.env[x] for x in qn]
     qsq_val = qs_[0] * qs_[0] + qs_[1] * qs_[1] + qs_[2] * qs_[2] + qs_[3] * qs_[3]
     qsq_name = find(r.env, qsq_val)
     dec(qsq_name is not None, "|q|^2 is computed", "no local holds q0^2+q1^2+q2^2+q3^2")
+    for (x, names, held, tested) in finals:
+        if held is not None and names == qn and x is not r:
+            v_ = x.env.get(qsq_name)
+            dec(v_ is not None and v_ == rowsq[held], "|q|^2 is recomputed for row %d of the adjugate" % held, "after q was replaced by row %d of the adjugate the value tested is still %r" % (held, v_))
     inner = rs[i_q]
     ik = C.kids(inner)
     # general branch: cut q after the normalisation
